@@ -68,6 +68,54 @@ def check(ctx, cfg):
     r10(ctx, cfg)
     r11(ctx, cfg)
     r12(ctx, cfg)
+    r13(ctx, cfg)
+
+
+WRAPPER_METHODS = (("execute", ("deps", "env", "info"), "msg"), ("instantiate", ("deps", "env", "info"), "msg"), ("query", ("deps", "env"), "msg"),
+                   ("sudo", ("deps", "env"), "msg"), ("reply", ("deps", "env"), None), ("migrate", ("deps", "env"), "msg"))
+
+
+def r13(ctx, cfg, R="C17.R13", only=None):
+    """the last hop of every delivery: `ContractWrapper`'s implementation of `Contract` hands over to the function the test author
+    supplied.  For each of execute / instantiate / query / sudo / reply / migrate: whatever the method answers on success is the
+    answer of `self.<m>_fn` called with the method's own `deps`, `env`, [`info`] and the message - `from_json(msg)?` of its own
+    `msg` bytes, resp. the `Reply` it was given - and nothing else (no answer made up for some ids, no entry point skipped)."""
+    F, P = cfg.facts, cfg.prov
+    for name, fixed, raw in WRAPPER_METHODS:
+        if only is not None and name not in only:
+            continue
+        key = "<contracts::ContractWrapper as contracts::Contract>::%s" % name
+        f = ctx.need_fn(R, key)
+        if f is None:
+            continue
+        vals = q.success_payloads(P, f)
+        bad = []
+        for v in vals:
+            o = peel(v)
+            c = peel(o[1]) if o[0] == "ok" else ("?",)
+            ok = c[0] == "call" and c[1] in ("std::ops::Fn::call", "std::ops::FnMut::call_mut", "std::ops::FnOnce::call_once") and len(c[2]) == 2
+            if ok:
+                fn_o = peel(c[2][0])
+                while fn_o[0] == "some":
+                    fn_o = peel(fn_o[1])
+                tup = peel(c[2][1])
+                ok = is_param_field(fn_o, "self", name + "_fn") and tup[0] == "agg" and tup[1] == "tuple" and len(tup[2]) == len(fixed) + 1
+            if ok:
+                args = [a for _, a in tup[2]]
+                ok = all(is_param(a, n) for a, n in zip(args, fixed))
+                last = peel(args[-1])
+                if raw is None:
+                    ok = ok and just(args[-1], lambda y: y[0] == "param" and y[2] in ("reply_data", "reply", "msg"))
+                else:
+                    d = peel(last[1]) if last[0] == "ok" else ("?",)
+                    while d[0] == "call" and d[1] == "std::result::Result::map_err" and d[2]:
+                        d = peel(d[2][0])       # (`from_json(msg).map_err(AnyError::from)`: the same Ok payload)
+                    ok = ok and d[0] == "call" and d[1] == "cosmwasm_std::from_json" and len(d[2]) == 1 and is_param(d[2][0], raw)
+            if not ok:
+                bad.append(fmt(o)[:160])
+        ctx.ob(R, key, "answers-what-the-supplied-function-answers", bool(vals) and not bad,
+               "ContractWrapper::%s can answer %s" % (name, bad or "nothing"), fn=f,
+               sample="self.%s_fn(%s, %s)" % (name, ", ".join(fixed), "from_json(msg)?" if raw else "reply"))
 
 
 def r12(ctx, cfg):
@@ -405,8 +453,12 @@ def submsg_fields(ctx, cfg, R):
 
 
 def r4(ctx, cfg):
+    msg_lift(ctx, cfg, "C17.R4")
+    response_lift(ctx, cfg, "C17.R4")
+
+
+def msg_lift(ctx, cfg, R):
     F, P = cfg.facts, cfg.prov
-    R = "C17.R4"
     key = "contracts::customize_msg"
     f = ctx.need_fn(R, key)
     if f is not None:
@@ -433,6 +485,12 @@ def r4(ctx, cfg):
                    "(a contract built with new_with_empty that emits it panics with \"unknown message variant\")" % (v, cfg.name), fn=f,
                    sample="CosmosMsg::%s(x) => CosmosMsg::%s(x)" % (v, v))
         submsg_fields(ctx, cfg, R)
+
+
+def response_lift(ctx, cfg, R):
+    """what a contract written against `Empty` answers reaches the chain as it is: `customize_response` carries the data (absent
+    stays absent), every event, every attribute and every sub-message (through customize_msg) of the response over, in order"""
+    F, P = cfg.facts, cfg.prov
     key = "contracts::customize_response"
     f = ctx.need_fn(R, key)
     if f is not None:
